@@ -586,9 +586,6 @@ func (s *Store) CreateAccessAndRefreshTokens(ctx context.Context, req op.TokenRe
 			return "", "", time.Time{}, errors.New("invalid refresh token")
 		}
 		old.Live = false
-		if t, ok := s.Tokens[old.Access]; ok {
-			t.Revoked = true
-		}
 		nr.Root = old.Root
 	}
 	t := s.newToken(req, nr.ID)
@@ -644,7 +641,9 @@ func (s *Store) RevokeToken(ctx context.Context, tokenOrID, userID, clientID str
 	}
 	s.mu.Lock()
 	defer s.mu.Unlock()
-	if t, ok := s.Tokens[tokenOrID]; ok {
+	// an id that arrives with another subject than the one stored did not come from a token this
+	// store issued (AES-CFB is malleable: a flipped ciphertext bit still decrypts to "id:subject'")
+	if t, ok := s.Tokens[tokenOrID]; ok && (userID == "" || t.Subject == userID) {
 		if t.Client != clientID {
 			return oidc.ErrInvalidClient().WithDescription("token was not issued for this client")
 		}
